@@ -253,6 +253,38 @@ theorem C05_push_step_no_lost_wakeup (m : Nat) (evs : List StepEv) :
     (∀ i, i < m + 1 → 0 < (urun (m + 1) (evs.map StepEv.toEv)).counts i) → 0 < (urun (m + 1) (evs.map StepEv.toEv)).trig :=
   unit_no_lost_wakeup (m + 1) (Nat.succ_pos m) _ (step_allCall evs)
 
+/-- what happens to `push_phase_shift` of a node with `m` blocking inputs (simulated clock): source 0 = scheduled ticks (queued by
+`push_scheduled_ts`, which then calls the handler), source `i + 1` = blocking arrivals of input `i` (queued by that input's
+`push_ts_max`, which then submits the handler). The previous end time comes from the handler's own success (and once from `_start`),
+so it is not a source. `call i` is a call that followed a delivery of source `i`. On the wall clock the previous end time is queued
+by the finished step instead, followed — through `push_scheduled_ts`, for which the step has just returned a token — by a call; that
+case is `unit_no_lost_wakeup` with the end time as one more source. -/
+theorem shift_sources_call :
+    shift_called_after_scheduled = true ∧ shift_called_after_ts_max = true ∧ shift_success_provides_end_prev = true ∧
+    start_provides_end_prev = true ∧ expected_blocking_called_after_next_step = true := by decide
+
+/-- **`push_phase_shift` is never left ready without a pending call** although its previous-end input is queued without one. -/
+theorem C05_phase_shift_no_lost_wakeup (m : Nat) (evs : List CEv) :
+    (∀ i, i < m + 1 → (crun (m + 1) evs).done < (crun (m + 1) evs).arrived i) →
+      ∃ i, i < m + 1 ∧ (crun (m + 1) evs).served i < (crun (m + 1) evs).arrived i :=
+  chain_no_lost_wakeup (m + 1) (Nat.succ_pos m) evs
+
+/-- `push_expected_blocking` serves one queued step per call and every queued step comes with a call: a joining handler with one source -/
+inductive ExpBlEv | nextStep | handlerCall
+
+def ExpBlEv.toEv : ExpBlEv → UEv
+  | .nextStep => .append 0 expected_blocking_called_after_next_step
+  | .handlerCall => .handle
+
+theorem expbl_allCall (evs : List ExpBlEv) : UAllCall (evs.map ExpBlEv.toEv) := by
+  induction evs with
+  | nil => trivial
+  | cons e evs ih => cases e <;> simp only [List.map_cons, ExpBlEv.toEv, UAllCall] <;> first | exact ⟨by decide, ih⟩ | exact ih
+
+theorem C05_expected_blocking_no_lost_wakeup (evs : List ExpBlEv) :
+    (∀ i, i < 1 → 0 < (urun 1 (evs.map ExpBlEv.toEv)).counts i) → 0 < (urun 1 (evs.map ExpBlEv.toEv)).trig :=
+  unit_no_lost_wakeup 1 (by decide) _ (expbl_allCall evs)
+
 /-- **before the repair** (one check per event) the selection handler could be left ready with no call pending — the schedule of the
 stall observed on the real threads: two expectations (one message, then none) queued before the message arrives. -/
 theorem C05_oneshot_selection_stalls :
